@@ -161,10 +161,11 @@ CLAIMS = {
          "unsubscribe the subject, peek) plus random schedules; every acquisition and callback is compared with the model and the trace is "
          "judged for deadlock, panic, overlapping callbacks, common order, exactly-once. The same controller drives merge_threads, "
          "zip_threads, combine_latest_threads, with_latest_from_threads, take_until_threads, skip_until_threads, sample_threads, "
-         "merge_all_threads(1|2|unbounded) and finalize_threads pipelines with 2-3 threads, an unsubscribing one included (deadlock, panic, "
+         "merge_all_threads(1|2|unbounded), share_threads (subscribers joining and leaving) and finalize_threads pipelines with 2-3 threads, an unsubscribing one included (deadlock, panic, "
          "a call that does not return, overlap, grammar, silence after unsubscribe; two-input operators tied to the sequential model by "
-         "linearizability). PARTIAL: the stateful model with theorems for all schedules covers the subjects; share, observe_on and delay "
-         "pipelines are covered by the stress runs and the general theorems only; the lost-wake-up clause is C14_no_lost_wakeup.", "DESIGN.md section 5 C10"),
+         "linearizability). PARTIAL: the stateful model with theorems for all schedules covers the subjects; observe_on and delay "
+         "pipelines (their tasks live in an executor) are covered by the stress runs and the general theorems only; the lost-wake-up clause "
+         "is C14_no_lost_wakeup.", "DESIGN.md section 5 C10"),
  "C11": ("Theorems (share / publish built on the subject machine of C06, upstream a counted subscription and a tap): "
          "C11_source_subscribed_at_most_once (any history, any number of subscribers, hot or cold source), C11_nothing_before_connection "
          "(publish: nothing is subscribed, driven or delivered before connect(); share: before the first subscriber), C11_multicast (an "
@@ -173,7 +174,9 @@ CLAIMS = {
          "is does not let go (KNOWN FINDING C11-still-driven). Each run executes all histories <= 5 (thorough 6) of subscribe / unsubscribe / "
          "source calls / connect / is_closed for share and publish over a hot source, all histories <= 4 over six cold scripts and random longer "
          "ones with three subscribers, local and _threads forms, and compares every observation with the specification (ideal machine) and the "
-         "model (code as it is); the 1% of cases where they differ are the recorded finding.", "DESIGN.md section 5 C11"),
+         "model (code as it is); the 1% of cases where they differ are the recorded finding. share_threads with subscribers joining and "
+         "leaving from two or three real threads while the source emits, under every schedule with <= 3 context switches at mutex "
+         "granularity: the source is connected at most once, every subscriber sees a sub-sequence of what passed the upstream tap.", "DESIGN.md section 5 C11"),
  "C14": ("Theorems: C14_future_outcome_and_readiness (items interleaved with polls in any way, then the terminal: every earlier poll is pending, "
          "the first later poll is ready with the documented outcome - Empty, the item, MultipleValues, the source's error), "
          "C14_stream_yields_everything_then_ends, C14_status_flag, C14_no_lost_wakeup with C14_all_interleavings (each of the 10 interleavings of "
